@@ -43,6 +43,8 @@ var menu = []menuPos{
 		history: []board.Move{{From: board.H1, To: board.G1}, {From: board.H8, To: board.G8}, {From: board.G1, To: board.H1}, {From: board.G8, To: board.H8}, {From: board.H1, To: board.G1}, {From: board.H8, To: board.G8}, {From: board.G1, To: board.H1}}},
 	// 8: a capture leaves K+B v K: insufficient material reached exactly by the capturing move
 	{name: "capture-into-dead-draw", turn: board.White, pieces: []board.Placement{pl(board.E1, board.White, board.King), pl(board.C1, board.White, board.Bishop), pl(board.E8, board.Black, board.King), pl(board.G5, board.Black, board.Pawn)}},
+	// 9: K+Q+R v K with mates of different length in one node (a mate in one and longer mates at the root)
+	{name: "two-mates", turn: board.White, pieces: []board.Placement{pl(board.H7, board.White, board.King), pl(board.D7, board.White, board.Rook), pl(board.D5, board.White, board.Queen), pl(board.E8, board.Black, board.King)}},
 }
 
 // harnessZobrist: a fixed table of distinct words (splitmix64); only hash equality matters.
@@ -293,6 +295,7 @@ func Harness_C03_T8_D1() { harnessAlphaBeta(8, 1, leafCount()) }
 func Harness_C03_T8_D2() { harnessAlphaBeta(8, 2, leafCount()) }
 func Harness_C03_T7_D2() { harnessAlphaBeta(7, 2, leafCount()) }
 func Harness_C03_T7_D3() { harnessAlphaBeta(7, 3, leafCount()) }
+func Harness_C03_T9_D4() { harnessAlphaBeta(9, 4, 1) }
 
 func leafCount() int {
 	if verifQuick() {
